@@ -180,6 +180,13 @@ def catalogue() -> List[Tmpl]:
     vi("dotted_missing", "proto p\nmessage A {\n    message B {}\n}\nmessage C {\n    A.X k = 1\n}\n", False, 6)
     vi("import_ok", 'proto p\nimport "lib.bitproto"\nmessage M {\n    lib.Pt p = 1\n    lib.Row r = 2\n    lib.Kind k = 3\n}\n', True, None, {"lib.bitproto": lib})
     vi("import_dup", 'proto p\nimport "lib.bitproto"\nimport other "lib.bitproto"\n', False, 3, {"lib.bitproto": lib})
+    # a dotted name that walks THROUGH something that is not a scope (constant, alias, enum member, field) names nothing
+    vi("dotted_through_const_type", "proto p\nconst N = 4\nmessage M {\n    N.x f = 1\n}\n", False, 4)
+    vi("dotted_through_const_cap", "proto p\nconst N = 4\nmessage M {\n    byte[N.size] f = 1\n}\n", False, 4)
+    vi("dotted_through_enum_member", "proto p\nenum Color : uint3 {\n    RED = 0\n}\nconst X = Color.RED.value\n", False, 5)
+    vi("dotted_through_alias_option", "proto p\ntype Ts = int48\nmessage M {\n    option max_bytes = Ts.size\n    bool b = 1\n}\n", False, 4)
+    vi("dotted_through_field", "proto p\nmessage A {\n    message B {\n        bool x = 1\n    }\n    B f = 1\n}\nmessage M {\n    A.f.B g = 1\n}\n", False, 9)
+    vi("dotted_enum_member_as_const_ok", "proto p\nenum Color : uint3 {\n    RED = 0\n    BLUE = 2\n}\nmessage M {\n    byte[Color.BLUE] f = 1\n}\n", None, None) if False else None
     # the same file under another spelling of its path is still the same file
     vi("import_dup_dot_slash", 'proto p\nimport "lib.bitproto"\nimport other "./lib.bitproto"\n', False, 3, {"lib.bitproto": lib})
     vi("import_dup_via_subdir", 'proto p\nimport one "sub/../lib.bitproto"\nimport two "lib.bitproto"\n', False, 3, {"lib.bitproto": lib, "sub/keep.bitproto": "proto keep\n"})
